@@ -1814,6 +1814,12 @@ impl<'a, E: quiver_core::effects::Effect> Compiler<'a, E> {
             };
 
             if let Some(scope) = self.scopes.last_mut() {
+                // Narrowings are keyed by name: what earlier type tests established about the
+                // previous holder of this name says nothing about the new binding.
+                scope.narrowings.variables.remove(variable_name);
+                scope.narrowings.fields.retain(|(provenance, _, _)| {
+                    !matches!(provenance, Provenance::Variable(name) if name == variable_name)
+                });
                 scope.bindings.insert(
                     variable_name.clone(),
                     Binding::Variable {
